@@ -66,9 +66,11 @@ func (c *Ctx) Fn(key string) *ssa.Function {
 
 // One returns the single site matched in fn, or aborts the rule instance as undecided.
 func (c *Ctx) One(fn *ssa.Function, m Matcher, what string) Site {
-	s := c.P.SitesDirect(fn, m)
-	if len(s) == 0 {
-		s = c.P.SitesT(fn, m) // inside a helper the function transparently enters
+	s := c.P.SitesT(fn, m) // fn and the helpers it transparently enters
+	if len(s) != 1 {
+		if d := c.P.SitesDirect(fn, m); len(d) == 1 {
+			s = d // several in the region, one in fn itself: the rule means that one
+		}
 	}
 	if len(s) != 1 {
 		panic(anchorErr{fmt.Sprintf("unresolved anchor: expected exactly one %s in %s, found %d", what, c.P.FuncKey(fn), len(s))})
@@ -78,10 +80,7 @@ func (c *Ctx) One(fn *ssa.Function, m Matcher, what string) Site {
 
 // Some returns the sites matched in fn (at least one) or aborts the instance as undecided.
 func (c *Ctx) Some(fn *ssa.Function, m Matcher, what string) []Site {
-	s := c.P.SitesDirect(fn, m)
-	if len(s) == 0 {
-		s = c.P.SitesT(fn, m)
-	}
+	s := c.P.SitesT(fn, m)
 	if len(s) == 0 {
 		panic(anchorErr{fmt.Sprintf("unresolved anchor: no %s in %s", what, c.P.FuncKey(fn))})
 	}
